@@ -236,3 +236,33 @@ pub(crate) fn is_internal_ptr_from_vo_bit<VM: VMBinding>(
 pub(crate) unsafe fn is_vo_addr(addr: Address) -> bool {
     VO_BIT_SIDE_METADATA_SPEC.load::<u8>(addr) != 0
 }
+
+/// Forwarders for the external verification harnesses (see `crate::verif_hooks`). One call each, no logic.
+#[cfg(any(kani, mmtk_verif))]
+pub mod verif_hooks {
+    use super::*;
+    pub fn is_vo_bit_set_for_addr(address: Address) -> Option<ObjectReference> {
+        super::is_vo_bit_set_for_addr(address)
+    }
+    pub fn find_object_from_internal_pointer<VM: VMBinding>(
+        start: Address,
+        search_limit_bytes: usize,
+    ) -> Option<ObjectReference> {
+        super::find_object_from_internal_pointer::<VM>(start, search_limit_bytes)
+    }
+    pub fn is_internal_ptr_from_vo_bit<VM: VMBinding>(
+        vo_addr: Address,
+        internal_ptr: Address,
+    ) -> Option<ObjectReference> {
+        super::is_internal_ptr_from_vo_bit::<VM>(vo_addr, internal_ptr)
+    }
+    pub fn set_vo_bit(object: ObjectReference) {
+        super::set_vo_bit(object)
+    }
+    pub fn unset_vo_bit(object: ObjectReference) {
+        super::unset_vo_bit(object)
+    }
+    pub fn is_vo_bit_set(object: ObjectReference) -> bool {
+        super::is_vo_bit_set(object)
+    }
+}
